@@ -203,12 +203,12 @@ func c14r2(w *World, rr *RuleRun) {
 	}
 	rr.Oblige(shortFuncName(ts), "the sender loop has one send site", w.P.Pos(ts.Pos()), len(sendCalls) == 1, fmt.Sprintf("%d", len(sendCalls)))
 	for _, sc := range sendCalls {
-		var counter *Term
+		var counters []*Term
 		w.Require(rr, sc, "a datagram is sent only while sends < maxSends", func(alt *Alt) (bool, string) {
 			ok := false
 			for k, t := range alt.terms {
 				if k[0] == 'b' && alt.facts[k] && t.Op == OpBin && t.Name == "<" && termEq(t.Args[1], maxSends) {
-					counter = t.Args[0]
+					counters = append(counters, t.Args[0])
 					ok = true
 				}
 			}
@@ -239,7 +239,27 @@ func c14r2(w *World, rr *RuleRun) {
 			if !ok {
 				break
 			}
-			if counter != nil && w.TS.Of(phi).String() != counter.String() {
+			// the phi is the counter that was compared with maxSends: the compared value is the phi
+			// itself, phi + 1 (range-over-int tests the next value at the latch), or - on the entry
+			// path - the constant the phi starts from
+			pt := w.TS.Of(phi)
+			related := len(counters) == 0
+			for _, counter := range counters {
+				if termEq(counter, pt) {
+					related = true
+				}
+				if counter.Op == OpBin && counter.Name == "+" && len(counter.Args) == 2 && termEq(counter.Args[0], pt) && counter.Args[1].IsConst("1") {
+					related = true
+				}
+				if counter.Op == OpConst {
+					for i, e := range phi.Edges {
+						if !hdr.Dominates(hdr.Preds[i]) && termEq(w.TS.Of(e), counter) {
+							related = true
+						}
+					}
+				}
+			}
+			if !related {
 				continue
 			}
 			all := true
@@ -575,6 +595,18 @@ func c14r9(w *World, rr *RuleRun) {
 	for _, cb := range cbs {
 		n := 0
 		fns := append([]*ssa.Function{cb}, w.Region[cb]...)
+		for _, cl := range allAnon(cb) {
+			// closures invoked by the callback itself (not started as goroutines)
+			started := false
+			for _, e := range w.CG.CallersOf(cl) {
+				if e.Mode == ModeGo {
+					started = true
+				}
+			}
+			if !started {
+				fns = append(fns, cl)
+			}
+		}
 		eachInstr(fns, func(fn *ssa.Function, ins ssa.Instruction) {
 			switch x := ins.(type) {
 			case *ssa.Select:
@@ -613,7 +645,7 @@ func c14r9(w *World, rr *RuleRun) {
 				return
 			}
 			g := call.Call.StaticCallee()
-			if g == nil || !w.P.IsLib(g) || g.Pkg != cb.Pkg || seen[g] || len(g.Blocks) == 0 {
+			if g == nil || !w.P.IsLib(g) || g.Pkg != cb.Pkg || seen[g] || len(g.Blocks) == 0 || g.Parent() != nil {
 				return
 			}
 			eachInstr([]*ssa.Function{g}, func(_ *ssa.Function, i2 ssa.Instruction) {
